@@ -183,6 +183,18 @@ def plan(tier, seed):
                       "dims": [d], "n": n, "scores": adv, "chunk": [0, 1],
                       "base_ranks": [2, 3, d], "layouts": ["single"],
                       "part": "float32_adversarial", "weight": 5 ** n})
+  # float64-adversarial sub-lattice: the small scores vanish against the
+  # dominant one even in double precision (ratio > 2^53), so the running
+  # total of the remaining scores can reach exactly 0 while positive scores
+  # are still waiting
+  adv64 = [3000.0, 2e-14, 1.5e-14, 1e-14, 0.0]
+  for rule in ["sketch_trace", "tail_rho"]:
+    for d in [4, 16]:
+      for n in [4, 5] if tier != "quick" else [4]:
+        tasks.append({"name": "%s/adv64/d%d/n%d" % (rule, d, n), "rule": rule,
+                      "dims": [d], "n": n, "scores": adv64, "chunk": [0, 1],
+                      "base_ranks": [2, 3, 8, d], "layouts": ["single"],
+                      "part": "float64_adversarial", "weight": 5 ** n})
   return {
       "tasks": tasks,
       "rule": "every (dims, scores) multiset of n axes x layout x layer naming "
